@@ -75,10 +75,17 @@ where
         // the valid raw parts for a `Vec<C>` for each `C` identified by `self.identifier`, with
         // length `source.length`. The `R` upon which this function is called is the same `R` that
         // `self.identifier` is generic over.
+        //
+        // The archetype is considered empty while its columns are being replaced: cloning runs
+        // the components' `Clone` and `Drop` implementations, and should one of them panic the
+        // columns are in differing states. Their contents are then leaked rather than dropped
+        // (some of them for a second time) together with the archetype.
+        let length = self.length;
+        self.length = 0;
         unsafe {
             R::clone_from_components(
                 &mut self.components,
-                self.length,
+                length,
                 &source.components,
                 source.length,
                 self.identifier.iter(),
